@@ -85,12 +85,17 @@ TIERS = {
 # be produced any more) would end almost every multi-request case at its first request on a concluded item.  With the switch
 # on, multi-request sets draw their targets from the pending/hidden pools only (single-request cases still target every
 # item, concluded or not, and report the defect under its own signature); the re-mapped requests are counted.
-EXCLUDE_KNOWN_CONCLUDED_IN_MULTI = True
+EXCLUDE_KNOWN_CONCLUDED_IN_MULTI = False   # the defect is repaired in /repo (6c9d8023): nothing is excluded any more
 # bounded response for "proceeds without waiting", in ticks in which the interpreter runs.  Measured on the unchanged tree: a
 # Watch whose condition is already true is activated 2 ticks after its first visit, 4 ticks when it sits in the body of another
 # Watch/Alarm (its interrupt is registered from inside an interrupt); a forced Wait / threshold line continues in the next tick.
 WATCH_TICKS = 5
 WAIT_TICKS = 3
+# Offered + rejected.  A refusal of a request that the run log offers AND the node itself still allows is always a violation
+# (`<op>:<kind>:offered:rejected`).  A *stale* offer (the node has moved on, only the item's recorded flags still offer it) is
+# judged where the refusal has a consequence the statement names - the Watch then runs its body; False = count only.
+JUDGE_STALE_OFFER_CONSEQUENCES = True
+SIG_STALE_BODY_RAN = "cancel:watch:offered:rejected:stale-offer:body-ran"
 SIG_CONCLUDED_ANY = "%s:not-offered:concluded-item-%s:%s"
 SIG_CONCLUDED = "%s:not-offered:concluded-item-accepted:runlog-unproducible"
 
@@ -127,10 +132,66 @@ def _retune(draw, nodes):
 
 
 @st.composite
+def _repeat_body(draw):
+    """1-3 lines that stay pending for a while and then end: what a request can hit in a later invocation"""
+    out = []
+    for _ in range(draw(st.integers(1, 3))):
+        k = draw(st.sampled_from(["wait", "wait", "slow", "watch", "watch", "mark", "hold", "pause", "ova"]))
+        if k == "wait":
+            out.append({"k": "wait", "t": None, "d": draw(st.sampled_from([0.3, 0.5, 1.0]))})
+        elif k in ("slow", "ova"):
+            out.append({"k": k, "t": None, "n": draw(st.integers(2, 5))})
+        elif k in ("hold", "pause"):
+            out.append({"k": k, "t": None, "d": draw(st.sampled_from([0.3, 0.5]))})
+        elif k == "watch":
+            cond = draw(st.sampled_from([{"tag": "In2", "op": "<", "val": 8, "unit": None},      # true at start
+                                         {"tag": "In2", "op": ">", "val": 5, "unit": None},      # false at start
+                                         {"tag": "In1", "op": ">=", "val": 3, "unit": "L/h"}]))
+            body = [{"k": "mark", "t": None}]
+            if draw(st.integers(0, 1)):
+                body.insert(0, {"k": "wait", "t": None, "d": 0.3})
+            out.append({"k": "watch", "t": None, "cond": dict(cond), "c": body})
+        else:
+            out.append({"k": "mark", "t": None})
+    return out
+
+
+@st.composite
+def _with_repeats(draw, tree):
+    """own addition to the shared generator's tree: a line that is executed several times in one run - a macro called 2-3
+    times or an Alarm whose condition holds from the start (its body runs round after round) - placed at a drawn position"""
+    body = tree["body"]
+    names = [n["name"] for n in body if n["k"] == "macro"]
+    what = draw(st.sampled_from(["macro", "macro", "alarm"]))
+    if what == "macro" and len(names) < 8:
+        name = "M%d" % (len(names) + 1)     # the shared generator names its macros M1, M2 in order
+        seq = [{"k": "macro", "t": None, "name": name, "c": draw(_repeat_body())}]
+        for _ in range(draw(st.integers(2, 3))):
+            seq.append({"k": "callmacro", "t": None, "name": name})
+            if draw(st.integers(0, 2)) == 0:
+                seq.append({"k": "mark", "t": None})
+        # the definition must come after every existing macro definition that precedes a call of it: append at the end of the
+        # macro definitions (macros are top-level lines), i.e. never between an existing macro and its calls' names
+        pos = draw(st.integers(0, len(body)))
+        last_macro = max([i for i, n in enumerate(body) if n["k"] == "macro"], default=-1)
+        pos = max(pos, last_macro + 1)
+        tree["body"] = body[:pos] + seq + body[pos:]
+    else:
+        cond = draw(st.sampled_from([{"tag": "In2", "op": "<", "val": 8, "unit": None}, {"tag": "In2", "op": ">=", "val": 0, "unit": None},
+                                     {"tag": "Temp", "op": "<", "val": 8, "unit": "degC"}]))
+        alarm = {"k": "alarm", "t": None, "cond": dict(cond), "c": draw(_repeat_body())}
+        pos = draw(st.integers(0, len(body)))
+        tree["body"] = body[:pos] + [alarm] + body[pos:]
+    return tree
+
+
+@st.composite
 def programs(draw, cfg):
     thresholds = draw(st.integers(0, 9)) < 3
     tree = draw(G.program(_cfg(thresholds, cfg["max_top"], cfg["depth"])))
     _retune(draw, tree["body"])
+    if draw(st.integers(0, 9)) < 5:
+        tree = draw(_with_repeats(tree))
     n = draw(st.integers(25, cfg["max_ticks"]))
     traj = draw(G.trajectory(n, max_changes=5))
     salt = draw(st.integers(0, 2 ** 32 - 1))
@@ -142,7 +203,7 @@ def _request_sets(prog, cfg, thresholds: bool):
     Not drawn one by one: Hypothesis completes many examples with an all-zero tail, which made the request sets of a program
     identical ([0, 0, cancel, pending] eight times); the derivation is a pure function of Hypothesis-drawn data."""
     h0 = hashlib.sha1(json.dumps([prog["tree"], prog["traj"], prog["n"], prog["salt"]], sort_keys=True).encode()).hexdigest()
-    pools = ["pending"] * 5 + ["all"] * 4 + (["hidden"] * 4 if thresholds else [])
+    pools = ["pending"] * 5 + ["all"] * 4 + ["later"] * 4 + (["hidden"] * 4 if thresholds else [])
 
     def rnd(i, j, field, mod):
         return int.from_bytes(hashlib.sha1(("%s|%d|%d|%s" % (h0, i, j, field)).encode()).digest()[:4], "big") % mod
@@ -159,21 +220,20 @@ def _resolve(abstract, probe, n, multi: bool):
     """[u, v, op, pool] -> concrete [tick, op, k, pool].  Every item (instance id) that is ever a candidate of the pool in
     the request-free probe run is equally likely (u), then every tick at which it is a candidate (v); k is its index in the
     pool at that tick.  So short-lived states (an instruction in its first tick, a command in its last iteration) are hit as
-    often as long waits.  A pool without any candidate in the whole run falls back to "all"."""
+    often as long waits.  A pool without any candidate in the whole run falls back to "pending", then "all"."""
     out, remapped = [], []
     for u, v, op, pool in abstract:
         if multi and EXCLUDE_KNOWN_CONCLUDED_IN_MULTI and pool == "all":
             pool = "pending"
             remapped.append(op)
         life: dict = {}
-        for tk in probe.ticks:
-            for j, iid in enumerate(tk["slot"][pool]):
-                life.setdefault(iid, []).append((tk["t"], j))
-        if not life and pool != "all":
-            pool = "all"
+        for cand in ([pool] if pool == "all" else [pool] + [q for q in ("pending", "all") if q != pool]):
+            pool = cand
             for tk in probe.ticks:
                 for j, iid in enumerate(tk["slot"][pool]):
                     life.setdefault(iid, []).append((tk["t"], j))
+            if life:
+                break
         if not life:
             out.append([2 + u % max(1, n - 2), op, v % 12, pool])
             continue
@@ -296,6 +356,17 @@ class _Prog:
         return line.kind == "alarm" or any(a.kind in ("alarm", "macro") for a in self.ancestors(line))
 
 
+def _watch_ran(prog, line, events):
+    """events showing that the Watch of `line` was activated or that a line of its body took effect"""
+    body = prog.descendants(line)
+    marks = {l.payload for l in body if l.kind == "mark"}
+    cmds = {l.payload for l in body if l.kind in ("quick", "slow", "ova", "ovb", "set", "flow")}
+    notes = {l.payload for l in body if l.kind == "notify"}
+    return [e for e in events if
+            (e[1] == "mark" and e[2] in marks) or (e[1] == "cmd" and e[4] == "exec" and str(e[5]) in cmds) or
+            (e[1] == "notify" and e[2] in notes) or (e[1] == "scope_activate" and e[2] == "Watch" and e[3] == line.id)]
+
+
 def _window(run, rec, n_interp):
     """ticks after the request up to and including the n-th tick in which the interpreter ran -> (ticks, complete?)"""
     out, cnt = [], 0
@@ -357,8 +428,32 @@ def oracle(case, A, B):
         if rec["status"] == "pending":
             nontrivial = True
             classes.append("pending:%s:%s:%s" % (rec["op"], grp, off))
+        if rec["later_invocation"]:
+            classes.append("later-invocation:%s:%s:%s:%s" % (rec["op"], grp, off, acc))
         if rec["offered"] and not rec["accepted"]:
-            classes.append("unjudged:offered-but-rejected:%s:%s:%s" % (rec["op"], grp, rec["status"]))
+            # The run log (read immediately before the request, nothing happens in between) offers the operation and the
+            # engine refuses it: the request does not take effect as offered.
+            line = prog.by_id.get(rec["line"])
+            if rec["live"] is False:
+                # stale offer: the flags of a run-log item are a snapshot taken when its last state was recorded; the node
+                # has moved on since (activated / cancelled / forced) and itself refuses.  Judged only where the refusal has
+                # a consequence the statement names: the Watch whose cancel was offered runs its body afterwards.
+                ran = []
+                if rec["op"] == "cancel" and grp == "watch" and line is not None and not prog.repeating(line):
+                    ran = _watch_ran(prog, line, A.events[rec["ev_start"]:])
+                if ran and not JUDGE_STALE_OFFER_CONSEQUENCES:
+                    classes.append("excluded_known:%s" % SIG_STALE_BODY_RAN)
+                elif ran:
+                    viol(SIG_STALE_BODY_RAN,
+                         "%s (%s) although the run log offered it - the item's flags are stale, the node itself is no longer cancellable - "
+                         "and the Watch ran afterwards: first at tick %d %r" % (describe(rec), rec.get("exc_msg"), ran[0][0], ran[0][1:]))
+                else:
+                    classes.append("unjudged:offered-but-rejected:stale-offer-without-consequence:%s:%s" % (rec["op"], grp))
+            else:
+                viol("%s:%s:offered:rejected" % (rec["op"], grp),
+                     "%s (%s) although the run log offered it and the node itself is still %s%s"
+                     % (describe(rec), rec.get("exc_msg"), "cancellable" if rec["op"] == "cancel" else "forcible",
+                        "; the line had been executed before in this run (later invocation of the same line)" if rec["later_invocation"] else ""))
         if not rec["accepted"] or rec["offered"] is False:
             continue
         line = prog.by_id.get(rec["line"])
@@ -433,13 +528,7 @@ def oracle(case, A, B):
                 if prog.repeating(line):
                     classes.append("unjudged:cancel:watch-in-alarm-or-macro")
                 else:
-                    body = prog.descendants(line)
-                    marks = {l.payload for l in body if l.kind == "mark"}
-                    cmds = {l.payload for l in body if l.kind in ("quick", "slow", "ova", "ovb", "set", "flow")}
-                    notes = {l.payload for l in body if l.kind == "notify"}
-                    ran = [e for e in A.events[rec["ev_start"]:] if
-                           (e[1] == "mark" and e[2] in marks) or (e[1] == "cmd" and e[4] == "exec" and str(e[5]) in cmds) or
-                           (e[1] == "notify" and e[2] in notes) or (e[1] == "scope_activate" and e[2] == "Watch" and e[3] == line.id)]
+                    ran = _watch_ran(prog, line, A.events[rec["ev_start"]:])
                     if ran:
                         viol("cancel:watch:offered:body-ran",
                              "%s, but the Watch ran afterwards: first at tick %d %r" % (describe(rec), ran[0][0], ran[0][1:]))
